@@ -70,7 +70,12 @@ def type_worker(arg):
             continue
         seen.add(b)
         try:
-            o = pydsdl.deserialize(X, b, with_delimiter_header=hdr)
+            # the byte string arrives as bytes, bytearray or memoryview (of bytes, of a bytearray, or a slice of a larger
+            # buffer whose other bytes are not part of b)
+            form = nstr % 5
+            buf = (b if form == 0 else bytearray(b) if form == 1 else memoryview(b) if form == 2 else memoryview(bytearray(b)) if form == 3
+                   else memoryview(b"\xff" + b + b"\xff\xff")[1:1 + len(b)])
+            o = pydsdl.deserialize(X, buf, with_delimiter_header=hdr)
             a = wr.from_py(t, o)
             if _has_nan(a):
                 continue
@@ -195,7 +200,8 @@ def run(ctx):
                 "is recorded and judged by TLC against the specification. Non-trivial = a call whose result is a value "
                 "with at least one non-default component or an error; distinct by (type, bytes)")
     ctx.assumptions = ["TLC's evaluation of the specification", "integer fields of the universe are at most 23 bits wide",
-                       "utf8 / byte arrays are sampled by the harness only (total, fixed point)"]
+                       "utf8 / byte arrays are sampled by the harness only (total, fixed point)",
+                       "the byte string is handed over as bytes / bytearray / memoryview (incl. a slice of a larger buffer) in turn"]
     cfg_b = "Wire_bytes2_quick.cfg" if ctx.tier == "quick" else "Wire_bytes_thorough.cfg"
     res = tlc.run("Wire", cfg_b, tag="c07spec", timeout=6000)
     ctx.add_tlc(res, cfg_b)
